@@ -77,6 +77,15 @@ func (p c13) Run(c *core.Ctx) {
 			}
 		}
 	}
+	// a component that collects everything startable by method name (func:"Run,returns=*"): collecting the
+	// runners is not running them
+	if nOther > 0 && nr > 0 && c.Rng.Intn(4) == 0 {
+		i := c.Rng.Intn(nOther)
+		if free := g.FreeSlots(i, func(si world.SlotInfo) bool { return si.Name == "AnyS" }); len(free) > 0 {
+			g.SetTag(i, "AnyS", "func", []string{"Run,returns=*,required=false", "Run,required=false"}[c.Rng.Intn(2)])
+			c.Count("components_collecting_runners_by_method_name", 1)
+		}
+	}
 	// a runner whose own creation fails (permanently, or on the first attempt only): the start must fail
 	// and no runner may run - the runner must not silently disappear from the sequence
 	c.Count("runners_with_order_settled_during_initialization", lateOrd)
